@@ -150,7 +150,7 @@ def oracle(ctx, extra):
         if 0.6 <= k < 0.7 and cfg_k < 0.6:
             cfg_k = 0.99        # (documents made of plugin constructs are mostly converted with plugins loaded)
         plugins = [] if cfg_k < 0.25 else (["strikethrough", "footnotes", "table"] if cfg_k < 0.4 else (r.sample(P, r.randint(1, 8)) if cfg_k < 0.95 else r.sample(P, len(P))))
-        if i % 16 == 9:
+        if i % 8 == 1:
             # a table of contents (directive) over headings of every form: the entries are rendered from the heading tokens
             style = r.choice(["fenced", "rst"])
             doc = gen_docs.toc_doc(r, style)
@@ -170,7 +170,7 @@ def oracle(ctx, extra):
     return {"evaluations": n, "distinct_nontrivial": len(seen), "failures": fails, "known_finding_instances": len(known),
             "known_by_class": {k: sum(1 for f in known if f["class"] == k) for k in {f["class"] for f in known}},
             "rule": "documents: 50% generated with all plugin syntaxes, 10% interrupt/lazy fragments, 10% wrapped paragraphs (continuation lines indented by 0-5 spaces or tabs, inline constructs straddling the line break), tab-indented containers and constructs whose repeatable part is repeated 9-129 times, 15% strings dense in stop "
-                    "characters / white space / hard and soft breaks / URLs / entities, 15% noise; every 8th a showcase of one plugin's constructs with that plugin enabled (abbreviations with multi-word, prefix and stop-character keys, uses wrapped over two lines), every 16th a table-of-contents directive over headings of every form (also setext headings that span two lines); configurations: core (25%), "
+                    "characters / white space / hard and soft breaks / URLs / entities, 15% noise; every 8th a showcase of one plugin's constructs with that plugin enabled (abbreviations with multi-word, prefix and stop-character keys, uses wrapped over two lines), every 8th a table-of-contents directive over headings of every form (also setext headings that span two lines); configurations: core (25%), "
                     "mistune.html's own set (15%), 1-8 random plugins (a quarter of the agreeing cases repeated through the shortcut mistune.markdown()); hard_wrap 35%, escape=False 25%; HTML compared with "
                     "plugins=P vs P+['speedup']; a difference is shrunk by delta debugging and classified by re-running with "
                     "only the block half / only the inline half of speedup",
